@@ -158,19 +158,21 @@ func (s *set[T]) Contains(vals ...T) bool {
 }
 
 func (s *set[T]) All() iter.Seq[T] {
-	// Create a list of indices representing the members.
-	indices := make([]int, len(s.members))
-	for i := range indices {
-		indices[i] = i
-	}
-
-	// Shuffle the indices list to randomize the order in which members are traversed.
-	// This ensures that the traversal order is non-deterministic, reflecting the unordered nature of set.
-	r.Shuffle(len(indices), func(i, j int) {
-		indices[i], indices[j] = indices[j], indices[i]
-	})
-
+	// The indices are listed and shuffled when the sequence is run, not when it is obtained:
+	// a sequence kept across changes of the collection must see the collection as it is then.
 	return func(yield func(T) bool) {
+		// Create a list of indices representing the members.
+		indices := make([]int, len(s.members))
+		for i := range indices {
+			indices[i] = i
+		}
+
+		// Shuffle the indices list to randomize the order in which members are traversed.
+		// This ensures that the traversal order is non-deterministic, reflecting the unordered nature of set.
+		r.Shuffle(len(indices), func(i, j int) {
+			indices[i], indices[j] = indices[j], indices[i]
+		})
+
 		for _, i := range indices {
 			if !yield(s.members[i]) {
 				return
